@@ -119,6 +119,7 @@ impl Req {
         let s = cryptography::sign(msg, &self.uni.user_sk(who));
         match sig {
             Sig::Good | Sig::OtherUser(_) => s,
+            Sig::GoodUpper => s.to_ascii_uppercase(),
             Sig::OtherMessage(_) => cryptography::sign(b"another message", &self.uni.user_sk(u)),
             Sig::Truncated(n) => s[..(*n as usize % s.len())].to_string(),
             Sig::Flip(i) => {
